@@ -141,6 +141,10 @@ func main() {
 	case "WrapperFacts":
 		src = genWrapperFacts(w, *dump)
 	default:
+		if *fact == "FnSurvey" {
+			fmt.Print(genFnSurvey(w))
+			return
+		}
 		if strings.HasPrefix(*fact, "Fn_") {
 			src = genFnDefs(w, *dump, strings.TrimPrefix(*fact, "Fn_"))
 			break
